@@ -45,6 +45,28 @@ def check(run, prog, tier):
     rule_B(run, prog)
     rule_C(run, prog)
     rule_D(run, prog)
+    run.rule("C07-E", "the tensor-form and the operator-form propagation routine are the same Taylor scheme "
+                      "(recogniser of C02 on the two routines whose agreement is claimed)", minimum=8)
+    rule_E(run, prog)
+
+
+def rule_E(run, prog):
+    """'Generate the same propagated dynamics': the routine for a tensor held as operators and the one
+    for the four-index tensor must both be the order-L expansion with step dt/ll, restarted from the
+    propagated state after every refinement sub-step, with the same nesting of time, refinement and
+    order loops.  The recogniser and the generator identities of C02 are run on exactly these two
+    routines (with and without pure dephasing) and reported under this property."""
+    from . import c02
+    from ..report import RuleProxy
+    cls = prog.cls("quantarhei.qm.propagators.rdmpropagator.ReducedDensityMatrixPropagator")
+    n = 0
+    for nme in ("__propagate_short_exp_with_relaxation", "__propagate_short_exp_with_rel_operators"):
+        f = cls.methods.get(nme)
+        if f is None:
+            raise AnalysisError("ReducedDensityMatrixPropagator.%s not found" % nme)
+        n += c02.routine_obligations(RuleProxy(run, "C07-E"), "C07-E", "C07-E", prog, f)
+    if n < 4:
+        raise AnalysisError("only %d expansion loops recognised in the two routines (4 confirmed)" % n)
 
 
 def _tensor_action(RR, rho, t=()):
